@@ -210,108 +210,84 @@ theorem actionCells_clean {p : JStr → Bool} (hp : ∀ s, p s = true → Clean 
 
 /-! ## comments -/
 
-theorem unescape_cons (c : Nat) (rest : List Nat) (h : c ≠ 92 ∨ rest.head? ≠ some 110) :
-    unescape (c :: rest) = c :: unescape rest := by
-  cases rest with
-  | nil => simp [unescape]
-  | cons r rs =>
-    by_cases hc : c = 92
-    · subst hc
-      have hr : r ≠ 110 := by
-        rcases h with h | h
-        · exact absurd rfl h
-        · intro e; subst e; simp at h
-      rw [unescape.eq_2]
-      intro rest' h1 h2
-      simp only [List.cons.injEq] at h2
-      exact hr h2.1
-    · rw [unescape.eq_2]
-      intro rest' h1
-      exact absurd h1 hc
+theorem unescape_cons (c : Nat) (rest : List Nat) (h : c ≠ 92) : unescape (c :: rest) = c :: unescape rest := by
+  rw [unescape.eq_5] <;> intro rest' h1 <;> exact absurd h1 h
 
-theorem head_escape (c : Nat) (rest : List Nat) : (escape (c :: rest)).head? = some (if c = 10 then 92 else c) := by
-  simp only [escape]
-  split <;> simp
-
-theorem unescape_escape : ∀ d : JStr, plainDoc.noBsN d = true → unescape (escape d) = d
-  | [], _ => by simp [escape, unescape]
-  | c :: rest, h => by
-    by_cases hc : c = 10
-    · subst hc
-      have h' : plainDoc.noBsN rest = true := by simpa [plainDoc.noBsN] using h
-      simp only [escape, if_true]
-      rw [unescape.eq_1, unescape_escape rest h']
-    · have h' : plainDoc.noBsN rest = true := by
-        cases rest with
-        | nil => simp [plainDoc.noBsN]
-        | cons r rs =>
-          by_cases h92 : c = 92 ∧ r = 110
-          · obtain ⟨rfl, rfl⟩ := h92; simp [plainDoc.noBsN] at h
-          · rw [plainDoc.noBsN.eq_2] at h
-            · exact h
-            · intro rest' h1 h2
-              simp only [List.cons.injEq] at h2
-              exact h92 ⟨h1, h2.1⟩
-      simp only [escape, hc, if_false]
-      rw [unescape_cons, unescape_escape rest h']
-      by_cases h92 : c = 92
-      · right
-        subst h92
-        cases rest with
-        | nil => simp [escape]
-        | cons r rs =>
-          rw [head_escape]
-          have hr : r ≠ 110 := by intro e; subst e; simp [plainDoc.noBsN] at h
-          split
-          · simp
-          · simpa using hr
-      · exact Or.inl h92
+theorem unescape_escape : ∀ d : JStr, unescape (escape d) = d
+  | [] => by simp [escape, unescape]
+  | c :: rest => by
+    have ih := unescape_escape rest
+    simp only [escape]
+    split
+    · rename_i h; subst h; rw [unescape.eq_1, ih]
+    · split
+      · rename_i h; subst h; rw [unescape.eq_2, ih]
+      · split
+        · rename_i h; subst h; rw [unescape.eq_3, ih]
+        · split
+          · rename_i h; subst h; rw [unescape.eq_4, ih]
+          · rename_i h _ _ _; rw [unescape_cons c _ h, ih]
 
 theorem escape_eq_nil {s : JStr} : escape s = [] ↔ s = [] := by
   cases s with
   | nil => simp [escape]
-  | cons c r => simp only [escape]; split <;> simp
-
-theorem plainDoc_spec {s : JStr} (h : plainDoc s = true) :
-    s ≠ [] ∧ plainDoc.noBsN s = true ∧ 9 ∉ s ∧ 13 ∉ s := by
-  cases s with
-  | nil => simp [plainDoc] at h
   | cons c r =>
-    simp only [plainDoc, Bool.and_eq_true, List.all_eq_true] at h
-    refine ⟨by simp, h.2, ?_, ?_⟩ <;> intro hm <;> have := h.1 _ hm <;> simp at this
+    simp only [escape]
+    by_cases h1 : c = 92
+    · simp [h1]
+    · by_cases h2 : c = 10
+      · simp [h2]
+      · by_cases h3 : c = 13
+        · simp [h3]
+        · by_cases h4 : c = 9 <;> simp [h1, h2, h3, h4]
 
-theorem mem_escape {x : Nat} : ∀ {s : JStr}, x ∈ escape s → (x ∈ s ∧ x ≠ 10) ∨ x = 92 ∨ x = 110
+theorem escape_inj {x y : JStr} : escape x = escape y ↔ x = y := by
+  constructor
+  · intro e
+    have := congrArg unescape e
+    rwa [unescape_escape x, unescape_escape y] at this
+  · intro e; rw [e]
+
+theorem plainDoc_ne_nil {s : JStr} (h : plainDoc s = true) : s ≠ [] := by
+  intro e; subst e; simp [plainDoc] at h
+
+theorem mem_escape {x : Nat} : ∀ {s : JStr}, x ∈ escape s → x = 92 ∨ x = 110 ∨ x = 114 ∨ x = 116 ∨ (x ≠ 10 ∧ x ≠ 13 ∧ x ≠ 9)
   | [], h => by simp [escape] at h
   | c :: r, h => by
     simp only [escape] at h
     split at h
     · simp only [List.mem_cons] at h
       rcases h with h | h | h
-      · exact Or.inr (Or.inl h)
-      · exact Or.inr (Or.inr h)
-      · rcases mem_escape h with ⟨h1, h2⟩ | h1
-        · exact Or.inl ⟨List.mem_cons_of_mem _ h1, h2⟩
-        · exact Or.inr h1
-    · rename_i hc
-      simp only [List.mem_cons] at h
-      rcases h with h | h
-      · subst h; exact Or.inl ⟨by simp, hc⟩
-      · rcases mem_escape h with ⟨h1, h2⟩ | h1
-        · exact Or.inl ⟨List.mem_cons_of_mem _ h1, h2⟩
-        · exact Or.inr h1
+      · exact Or.inl h
+      · exact Or.inl h
+      · exact mem_escape h
+    · split at h
+      · simp only [List.mem_cons] at h
+        rcases h with h | h | h
+        · exact Or.inl h
+        · exact Or.inr (Or.inl h)
+        · exact mem_escape h
+      · split at h
+        · simp only [List.mem_cons] at h
+          rcases h with h | h | h
+          · exact Or.inl h
+          · exact Or.inr (Or.inr (Or.inl h))
+          · exact mem_escape h
+        · split at h
+          · simp only [List.mem_cons] at h
+            rcases h with h | h | h
+            · exact Or.inl h
+            · exact Or.inr (Or.inr (Or.inr (Or.inl h)))
+            · exact mem_escape h
+          · rename_i h92 h10 h13 h9
+            simp only [List.mem_cons] at h
+            rcases h with h | h
+            · subst h; exact Or.inr (Or.inr (Or.inr (Or.inr ⟨h10, h13, h9⟩)))
+            · exact mem_escape h
 
-theorem escape_clean {s : JStr} (h : plainDoc s = true) : Clean (escape s) := by
-  obtain ⟨_, _, h9, h13⟩ := plainDoc_spec h
-  refine ⟨?_, ?_, ?_⟩ <;> intro hm <;> rcases mem_escape hm with ⟨h1, h2⟩ | h1 | h1
-  · exact h9 h1
-  · simp at h1
-  · simp at h1
-  · exact h2 rfl
-  · simp at h1
-  · simp at h1
-  · exact h13 h1
-  · simp at h1
-  · simp at h1
+/-- an escaped comment has no TAB, LF, CR at all -/
+theorem escape_clean (s : JStr) : Clean (escape s) := by
+  refine ⟨?_, ?_, ?_⟩ <;> intro hm <;> rcases mem_escape hm with h | h | h | h | ⟨h1, h2, h3⟩ <;> simp_all
 
 theorem docCells_clean (a : Action JStr) (h : actionAll plainDoc a = true) :
     ∀ c ∈ (actionCells a).map escape, Clean c := by
@@ -323,19 +299,19 @@ theorem docCells_clean (a : Action JStr) (h : actionAll plainDoc a = true) :
     simp [actionCells, Action.toTuple, cellOf, escape] at hc
     rcases hc with rfl | rfl
     · exact clean_nil
-    · exact escape_clean h
+    · exact escape_clean _
   | remove x =>
     simp only [actionAll] at h
     simp [actionCells, Action.toTuple, cellOf, escape] at hc
     rcases hc with rfl | rfl
-    · exact escape_clean h
+    · exact escape_clean _
     · exact clean_nil
   | edit x y =>
     simp only [actionAll, Bool.and_eq_true] at h
     simp [actionCells, Action.toTuple, cellOf] at hc
     rcases hc with rfl | rfl
-    · exact escape_clean h.1
-    · exact escape_clean h.2
+    · exact escape_clean _
+    · exact escape_clean _
 
 /-- `add_comment` on a written comment row -/
 theorem addComment_cells (a : Action JStr) (h : actionAll plainDoc a = true) :
@@ -344,30 +320,22 @@ theorem addComment_cells (a : Action JStr) (h : actionAll plainDoc a = true) :
   | none => simp [addComment, parseAction, actionCells, Action.toTuple, cellOf, cell, normAction, escape, Action.mapA]
   | add b =>
     simp only [actionAll] at h
-    obtain ⟨hne, hbs, _, _⟩ := plainDoc_spec h
     simp [addComment, parseAction, actionCells, Action.toTuple, cellOf, cell, normAction, escape, Action.mapA,
-      escape_eq_nil, hne, unescape_escape b hbs]
+      escape_eq_nil, plainDoc_ne_nil h, unescape_escape]
   | remove x =>
     simp only [actionAll] at h
-    obtain ⟨hne, hbs, _, _⟩ := plainDoc_spec h
     simp [addComment, parseAction, actionCells, Action.toTuple, cellOf, cell, normAction, escape, Action.mapA,
-      escape_eq_nil, hne, unescape_escape x hbs]
+      escape_eq_nil, plainDoc_ne_nil h, unescape_escape]
   | edit x y =>
     simp only [actionAll, Bool.and_eq_true] at h
-    obtain ⟨hnx, hbx, _, _⟩ := plainDoc_spec h.1
-    obtain ⟨hny, hby, _, _⟩ := plainDoc_spec h.2
-    have hinj : escape x = escape y ↔ x = y := by
-      constructor
-      · intro e
-        have := congrArg unescape e
-        rwa [unescape_escape x hbx, unescape_escape y hby] at this
-      · intro e; rw [e]
+    have hnx := plainDoc_ne_nil h.1
+    have hny := plainDoc_ne_nil h.2
     by_cases hxy : x = y
     · subst hxy
       simp [addComment, parseAction, actionCells, Action.toTuple, cellOf, cell, normAction, Action.mapA,
         escape_eq_nil, hnx]
     · simp [addComment, parseAction, actionCells, Action.toTuple, cellOf, cell, normAction, Action.mapA,
-        escape_eq_nil, hnx, hny, hinj, hxy, unescape_escape x hbx, unescape_escape y hby]
+        escape_eq_nil, hnx, hny, escape_inj, hxy, unescape_escape]
 
 /-! ## parameter indices -/
 
